@@ -35,7 +35,15 @@ def _mk(oid, state, attrs, heap):
     for v in VIRTUAL:
         heap[f"{oid}.{v}"] = Const(f"{oid}-{v}")
     heap[f"{oid}.$state"] = Const(state)
+    # the helper methods every state value has (as_int, lower, ...): bound to this very object, so two snapshots never share one
+    from ..absint import FuncV
+    for m in STATE_METHODS:
+        heap[f"{oid}.{m}"] = FuncV(STATE_METHOD_NODE, recv=o, name=f"{oid}.{m}")
     return o
+
+
+STATE_METHODS = ("as_int", "lower")
+STATE_METHOD_NODE = ast.parse("def method(self):\n    pass").body[0]
 
 
 class _PredPolicy(FlowPolicy):
@@ -106,6 +114,10 @@ def _ref_changed(var_name, new, old, ident):
         if len(parts) == 2 or parts[2] == "old":
             if ns != os_:
                 return True
+        elif parts[2] in STATE_METHODS:
+            # `d.e.as_int()` in an expression: a method of the value - what it yields changes with the value, not with the attributes
+            if ns != os_ or (new is None) != (old is None):
+                return True
         elif na.get(parts[2]) != oa.get(parts[2]):
             return True
     return False
@@ -119,7 +131,9 @@ def change_predicate_table(ctx, program, rid):
     idents_any = [["d.e"], ["d.e.x"], ["d.e.y"], ["d.e.*"], ["d.other", "d.e.*"], ["d.other"], ["d.e.x", "d.e"], ["d.e", "d.e.x"], ["d.e.y", "d.e.x"]]
     idents_chg = [["d.e"], ["d.e.old"], ["d.e.x"], ["d.e.y"], ["d.other", "d.e.y"], ["d.other"], ["d.e.old.x"], ["x"],
                   # several watched names of one entity, in both iteration orders (the names are kept in a set)
-                  ["d.e", "d.e.x"], ["d.e.x", "d.e"], ["d.e.old", "d.e.y"], ["d.e.y", "d.e.x"], ["d.e", "d.other.x", "d.e.y"]]
+                  ["d.e", "d.e.x"], ["d.e.x", "d.e"], ["d.e.old", "d.e.y"], ["d.e.y", "d.e.x"], ["d.e", "d.other.x", "d.e.y"],
+                  # a method call on the state value in the expression (`d.e.as_int() > 20`): the scan yields the dotted name d.e.as_int
+                  ["d.e.as_int"], ["d.e.lower", "d.other"]]
     for new, old in itertools.product(vals, vals):
         if new is None and old is None:
             continue
